@@ -236,6 +236,49 @@ func modelLine(rr runRes) string {
 	return fmt.Sprintf("st=%s out=%s ri=%s acc=%s susp=%s", rr.st, rr.out, rr.ri, rr.acc, rr.susp)
 }
 
+// modelCase builds the `case` op for coroutine t.<name>: the coroutine and, transitively, its
+// callees, as the hook describes them. why != "": some construct is outside the executable model.
+func modelCase(bp *builtPkg, name string) (line string, why string) {
+	var order []string
+	seen := map[string]bool{}
+	var visit func(n string) string
+	visit = func(n string) string {
+		if seen[n] {
+			return ""
+		}
+		seen[n] = true
+		lf, ok := bp.live["t."+n]
+		if !ok {
+			return "no such coroutine: " + n
+		}
+		if lf.Err != "" || lf.Untied != "" {
+			if n != name {
+				return "callee: " + lf.Err + lf.Untied
+			}
+			return lf.Err + lf.Untied
+		}
+		order = append(order, n)
+		for _, op := range lf.Ops {
+			if f := strings.Fields(op); len(f) >= 3 && f[1] == "C" {
+				if w := visit(f[2]); w != "" {
+					return w
+				}
+			}
+		}
+		return ""
+	}
+	if w := visit(name); w != "" {
+		return "", w
+	}
+	var b strings.Builder
+	b.WriteString("case " + strings.Join(bp.live["t."+name].Statuses, ","))
+	for _, n := range order {
+		lf := bp.live["t."+n]
+		fmt.Fprintf(&b, " | %s %d | %s | %s", n, len(lf.Vars), lf.TBody, strings.Join(lf.Ops, " ; "))
+	}
+	return b.String(), ""
+}
+
 // canonical model line of a `split` op from a C driver line (drop calls)
 func splitLine(rr runRes) string {
 	if rr.crash {
@@ -599,15 +642,19 @@ func sectionC(r *hlib.Run, rng *hlib.Rand, p *wpkg, bp *builtPkg, pools map[stri
 			// the scratch machines, the control flow) runs the same coroutine, as the hook
 			// describes it, under the same chunking. First flavour only.
 			if lf, ok := bp.live["t."+j.f.name]; fi == 0 && ok {
-				if lf.Err != "" || lf.Untied != "" {
-					r.Count("C:model-not-run:" + firstN(lf.Err+lf.Untied, 60))
+				caseLine, why := modelCase(bp, j.f.name)
+				if why != "" {
+					r.Count("C:model-not-run:" + firstN(why, 60))
 				} else {
 					if lastCase != j.f.name {
 						lastCase = j.f.name
-						r.Op(fmt.Sprintf("case %s %d %s | %s | %s", j.f.name, len(lf.Vars), strings.Join(lf.Statuses, ","),
-							lf.TBody, strings.Join(lf.Ops, " ; ")), "defined")
+						r.Op(caseLine, "defined")
 						r.Count("C:model-coroutines")
+						if strings.Contains(caseLine, " C ") {
+							r.Count("C:model-coroutines-with-nested-calls")
+						}
 					}
+					_ = lf
 					all := append(append([]string{}, j.lines...), dstLines[i]...)
 					outs := append(append([]string{}, res1[fl.name][i]...), res2[fl.name][i]...)
 					for k := range all {
